@@ -7,6 +7,8 @@ Byte term nodes (interned, referred to by integer id):
    ('x', frozenset(ids), c) XOR of >= 1 distinct non-constant byte terms and the constant c
    ('f', leaf_id, table)    table[leaf] : any function of ONE byte-valued term, as a 256-tuple of ints
    ('u', tag, ids, i)       byte i of an uninterpreted 16-byte function tag applied to the 16 argument bytes
+   ('b', op, a, b)          a op b (op in | &, operands over different leaves; commutative: a < b).  No rewrites apply to it, so it
+                            only ever makes two terms unequal-by-id, and inequality is reported only with a differing sample
 Abstract values:  ('tb', id) one byte term,  ('bv', (id, ...)) little-endian byte vector (u16/u32/u64).
 Rewrites are equivalences, so equal canonical ids => equal functions.  Unequal ids are confirmed as a real
 difference only by evaluating both terms on sample assignments (evaluation of TERMS, never of wencry code).
@@ -160,6 +162,15 @@ class TS:
                 return None
         return self.f(lc, tuple((ta[x] if la is not None else ta) if tc[x] else (tb[x] if lb is not None else tb) for x in range(256)))
 
+    def bin(self, op, a, b):
+        r = self.map2(a, b, (lambda p, q: p | q) if op == '|' else (lambda p, q: p & q))
+        if r is not None:
+            return r
+        if a == b:
+            return a
+        a, b = min(a, b), max(a, b)
+        return self.mk(('b', op, a, b))
+
     def unint(self, tag, args, i):
         return self.mk(('u', tag, tuple(args), i))
 
@@ -194,6 +205,12 @@ class TS:
                     stack.extend(miss)
                     continue
                 memo[j] = fun(n[1], [memo[m] for m in n[2]], n[3])
+            elif n[0] == 'b':
+                miss = [m for m in n[2:] if m not in memo]
+                if miss:
+                    stack.extend(miss)
+                    continue
+                memo[j] = (memo[n[2]] | memo[n[3]]) if n[1] == '|' else (memo[n[2]] & memo[n[3]])
             stack.pop()
         return memo[i]
 
@@ -215,6 +232,8 @@ class TS:
                 stack.append(n[1])
             elif n[0] == 'u':
                 stack.extend(n[2])
+            elif n[0] == 'b':
+                stack.extend(n[2:])
         return acc
 
     def size(self, i):
@@ -232,6 +251,8 @@ class TS:
                 stack.append(n[1])
             elif n[0] == 'u':
                 stack.extend(n[2])
+            elif n[0] == 'b':
+                stack.extend(n[2:])
         return len(seen)
 
     def show(self, i, depth=2):
@@ -248,6 +269,8 @@ class TS:
             return 'T%s[%s]' % (self.tname(n[2]), self.show(n[1], depth - 1))
         if n[0] == 'u':
             return '%s(%s..)[%d]' % (n[1], self.show(n[2][0], depth - 1), n[3])
+        if n[0] == 'b':
+            return '(%s %s %s)' % (self.show(n[2], depth - 1), n[1], self.show(n[3], depth - 1))
         return str(n)
 
     def tname(self, table):
